@@ -195,6 +195,7 @@ func treeCmd(args []string) *rep.Result {
 		return res
 	}
 	type job struct {
+		s   int64 // concretisation seed of the case
 		e   *Edge
 		pkg *reg.Pkg
 		v   string
@@ -207,7 +208,7 @@ func treeCmd(args []string) *rep.Result {
 		go func() {
 			defer wg.Done()
 			for j := range jobs {
-				runTreeEdge(j.e, j.pkg, &conc.Ctx{C: cp, V: cp.Variants[j.v], Seed: c.seed}, j.enc, c.prop, res)
+				runTreeEdge(j.e, j.pkg, &conc.Ctx{C: cp, V: cp.Variants[j.v], Seed: j.s}, j.enc, c.prop, res)
 			}
 		}()
 	}
@@ -229,7 +230,7 @@ func treeCmd(args []string) *rep.Result {
 					if e.Act.Op == "delete" && enc != "typed" {
 						continue
 					}
-					jobs <- job{e, pkg, v, enc}
+					jobs <- job{s: c.seed + int64(i%13), e: e, pkg: pkg, v: v, enc: enc}
 					n++
 				}
 			}
